@@ -1,6 +1,8 @@
 package main
 
 import (
+	"bytes"
+	"errors"
 	"fmt"
 	"io"
 	"math"
@@ -13,6 +15,7 @@ import (
 	"path"
 	"path/filepath"
 	"sort"
+	"strconv"
 	"strings"
 	"sync"
 	"time"
@@ -549,4 +552,90 @@ func init() {
 		}
 		os.Remove(dest)
 	}
+}
+
+// ---- proc=1: the command run as a process (the program built from cmd/whispertool/main.go, with real flags)
+
+// procArgs spells a command value as the command line that produces it.
+func procArgs(c interface{}) []string {
+	ts := func(t wt.Timestamp) string { return t.String() }
+	window := func(from, until wt.Timestamp) []string {
+		if from == 0 && until == 0 {
+			return nil
+		}
+		return []string{"-from=" + ts(from), "-until", ts(until)}
+	}
+	xff := func(x float32) string { return strconv.FormatFloat(float64(x), 'g', -1, 32) }
+	switch v := c.(type) {
+	case *cmd.CopyCommand:
+		a := []string{"copy", "-src-base", v.SrcBase, "-src=" + v.SrcRelPath, "-dest-base", v.DestBase, "-agg-method", v.AggregationMethod.String(),
+			"-x-files-factor=" + xff(v.XFilesFactor), "-retentions", v.ArchiveInfoList.String(), "-archive", fmt.Sprint(v.ArchiveID), "--text-out=" + v.TextOut,
+			fmt.Sprintf("-copy-nan=%v", v.CopyNaN)}
+		if v.DestRelPath != "" {
+			a = append(a, "-dest", v.DestRelPath)
+		}
+		return append(a, window(v.From, v.Until)...)
+	case *cmd.DiffCommand:
+		a := []string{"diff", "-src-base", v.SrcBase, "-src=" + v.SrcRelPath, "-dest-base", v.DestBase, "-archive", fmt.Sprint(v.ArchiveID), "--text-out=" + v.TextOut}
+		if v.DestRelPath != "" {
+			a = append(a, "-dest", v.DestRelPath)
+		}
+		return append(a, window(v.From, v.Until)...)
+	case *cmd.SumCommand:
+		return append([]string{"sum", "-src-base=" + v.SrcBase, "-item", v.ItemPattern, "-src", v.SrcPattern, "-archive=" + fmt.Sprint(v.ArchiveID), "-text-out", v.TextOut,
+			fmt.Sprintf("-header=%v", v.ShowHeader)}, window(v.From, v.Until)...)
+	case *cmd.SumCopyCommand:
+		return append([]string{"sum-copy", "-src-base", v.SrcBase, "-item=" + v.ItemPattern, "-src", v.SrcPattern, "-dest-base", v.DestBase, "-dest", v.DestRelPath,
+			"-agg-method=" + v.AggregationMethod.String(), "-x-files-factor", xff(v.XFilesFactor), "-retentions=" + v.ArchiveInfoList.String(),
+			"-archive", fmt.Sprint(v.ArchiveID), "-text-out=" + v.TextOut}, window(v.From, v.Until)...)
+	case *cmd.SumDiffCommand:
+		return append([]string{"sum-diff", "-src-base", v.SrcBase, "-item", v.ItemPattern, "-src=" + v.SrcPattern, "-dest-base=" + v.DestBase, "-dest", v.DestRelPath,
+			"-archive", fmt.Sprint(v.ArchiveID), "-text-out", v.TextOut}, window(v.From, v.Until)...)
+	case *cmd.ViewCommand:
+		return append([]string{"view", "-src-base", v.SrcBase, "-src", v.SrcRelPath, "-archive", fmt.Sprint(v.ArchiveID), "-text-out=" + v.TextOut,
+			fmt.Sprintf("-header=%v", v.ShowHeader)}, window(v.From, v.Until)...)
+	case *cmd.ViewRawCommand:
+		return append([]string{"view-raw", "--src-base", v.SrcBase, "--src=" + v.SrcRelPath, "-archive", fmt.Sprint(v.ArchiveID), "-text-out", v.TextOut,
+			fmt.Sprintf("-header=%v", v.ShowHeader), fmt.Sprintf("-sort=%v", v.SortsByTime)}, window(v.From, v.Until)...)
+	case *cmd.GenerateCommand:
+		return []string{"generate", "-dest", v.Dest, "-perm", fmt.Sprintf("%o", uint32(v.Perm)), "-agg-method", v.AggregationMethod.String(), "-x-files-factor", xff(v.XFilesFactor),
+			"-retentions", v.ArchiveInfoList.String(), "-max", fmt.Sprint(v.RandMax), fmt.Sprintf("-fill=%v", v.Fill), "-text-out=" + v.TextOut}
+	}
+	must(fmt.Errorf("procArgs: unknown command %T", c))
+	return nil
+}
+
+var errProcFailed = errors.New("the program exited with status 2")
+
+// execute runs a command: in this process (Execute), or, with proc=1, as the program itself (exit status 0 =
+// success, 1 = difference found, 2 = any error).
+func (s *sess) execute(a kv, c cmd.Command, then func()) (error, bool) {
+	if a.num("proc", 0) != 1 {
+		return runCmdThen(c.Execute, then)
+	}
+	bin := filepath.Join(filepath.Dir(os.Args[0]), "whispertool")
+	pc := exec.Command(bin, procArgs(c)...)
+	var stderr bytes.Buffer
+	pc.Stdout, pc.Stderr = io.Discard, &stderr
+	err := pc.Run()
+	if then != nil {
+		then()
+	}
+	if err == nil {
+		return nil, false
+	}
+	var ee *exec.ExitError
+	if !errors.As(err, &ee) {
+		must(err)
+	}
+	if strings.Contains(stderr.String(), "panic:") || strings.Contains(stderr.String(), "fatal error:") {
+		return nil, true
+	}
+	switch ee.ExitCode() {
+	case 1:
+		return cmd.ErrDiffFound, false
+	case 2:
+		return errProcFailed, false
+	}
+	return fmt.Errorf("exit status %d", ee.ExitCode()), false
 }
